@@ -116,7 +116,7 @@ def run(ctx):
     repo = ctx.repo
     ctx.decided = ['C01.14 every decoded argument is a fresh object', 'C01.1 arg-accept', 'C01.2 arg-priority', 'C01.3 dispatch-table', 'C01.4 nullable-group truthiness',
                    'C01.5 group inventory', 'C01.6 line-accept', 'C01.7 line-direction', 'C01.8 separator agreement',
-                   'C01.10 direction flag', 'C01.11 field provenance', 'C01.12 group order', 'C01.13 every piece decoded in order', 'C01.15 each line is decoded by itself']
+                   'C01.10 direction flag', 'C01.11 field provenance', 'C01.12 group order', 'C01.13 every piece decoded in order', 'C01.15 each line is decoded by itself', 'C01.16 pattern table fixed once built']
     ctx.undecided = ['behaviour of the hand-written scanner argument_list_strs/end_of_str on every string',
                      'which substrings the line regex groups bind when a match is ambiguous (beyond C01.7)',
                      'numeric conversion of the matched text (int, float)']
@@ -131,6 +131,21 @@ def run(ctx):
     from . import c08 as _c08
     _c08.check_decoder_input(ctx, 'C01.15', _c08.parse_all_paths(ctx))
     init = repo.func('WlPatterns.__init__')
+    # ---- C01.16 the pattern table is fixed once built ----------------------------------------------------------
+    # which pattern a line is tried against may depend on the line only: an attribute of the pattern holder that is stored outside its
+    # constructor (a "pattern that matched last time", a cache keyed by nothing) makes the decoding of one line depend on the lines before it
+    from .common import _mutable_family
+    if init.cls is not None:
+        def _singleton_slot(w):
+            # the holder's own lazily filled singleton slot: a store of a freshly constructed holder (X.instance = X())
+            v = getattr(w.stmt, 'value', None)
+            return w.kind == 'store' and isinstance(v, ast.Call) and not v.args and not v.keywords and norm(v.func).split('.')[-1] == init.cls.name
+        ws16 = [w for w in _mutable_family(repo, init.cls) if not _singleton_slot(w)]
+        for w in ws16:
+            ctx.check(False, 'C01.16', 'pattern-table:fixed-once-built:%s' % w.func.qual, w.func.loc(w.stmt), '',
+                      'an attribute of %s is written after construction (%s in %s): the pattern a line is decoded with then depends on earlier lines'
+                      % (init.cls.name, norm(w.stmt)[:70], w.func.short))
+        ctx.check(True, 'C01.16', 'pattern-table:fixed-once-built', init.loc(), 'no attribute of %s is written outside its constructor (%d writes found)' % (init.cls.name, len(ws16)))
     env, pats = rx.fold_strings(init.node)
     f_arg = repo.func('parse.argument')
     f_msg = repo.func('parse.message')
